@@ -129,4 +129,25 @@ ParseFen(str) ==
                    hmcS |-> hS, fmnS |-> fS]
 
 PosOfFen(str) == ParseFen(str).pos
+
+(***************************************************************************)
+(* Three-valued classification (Appendix B.2 of DESIGN.md).                *)
+(***************************************************************************)
+NoLeadingZero(n) == Len(n) = 1 \/ Ch(n, 1) # "0"
+FenClass(str) ==
+  LET pf == ParseFen(str)
+      n == Len(Split(str, " "))
+  IN IF str = "startpos" THEN "dontcare"
+     ELSE IF ~pf.ok THEN "reject"
+     ELSE IF /\ WellFormed(pf.pos)
+             /\ Len(pf.hmcS) <= 9 /\ Len(pf.fmnS) <= 9 /\ NoLeadingZero(pf.hmcS) /\ NoLeadingZero(pf.fmnS)
+             /\ str = (IF n = 6 THEN RenderFenS(pf.pos, pf.hmcS, pf.fmnS) ELSE RenderFen4(pf.pos))
+          THEN "accept"
+          ELSE "dontcare"
+
+\* the 64 cells in order a1, b1, ... h8 as one string ("." = empty)
+CellsOf(bd) ==
+  LET RECURSIVE Row(_)
+      Row(q) == IF q = 64 THEN "" ELSE (IF bd[q] = 0 THEN "." ELSE PieceChar[bd[q]]) \o Row(q + 1)
+  IN Row(0)
 =============================================================================
